@@ -697,3 +697,106 @@ Theorem interferometer_is_real_fit_on_components (lnf : R -> R) (tp : T (RL lnf)
   vfit_log_evidence tp v = fit_log_evidence tp (real_fit_of v) /\
   vfit_figure_of_merit tp v = fit_figure_of_merit tp (real_fit_of v).
 Proof. intros H. split; [apply real_fit_okb; exact H | apply vfit_is_real_fit; exact H]. Qed.
+
+(* ================================================================== 7. preloads *)
+Local Open Scope nat_scope.
+Section PreAny.
+  Context {O : NumOps}.
+  Implicit Types (p : pre (T O)) (iv : inv (T O)).
+
+  (* no preloads, or preloads that carry the true quantities: every term is the one without preloads *)
+  Theorem preloads_absent_or_consistent p iv :
+    (pre_H p = None \/ pre_H p = Some (regularization_matrix iv)) ->
+    (pre_ldr p = None \/ pre_ldr p = Some (logdet (regularization_matrix_reduced iv))) ->
+    p_regularization_matrix p iv = regularization_matrix iv /\
+    p_curvature_reg_matrix p iv = curvature_reg_matrix iv /\
+    p_regularization_matrix_reduced p iv = regularization_matrix_reduced iv /\
+    p_curvature_reg_matrix_reduced p iv = curvature_reg_matrix_reduced iv /\
+    p_regularization_term p iv = regularization_term iv /\
+    p_log_det_curvature_reg_matrix_term p iv = log_det_curvature_reg_matrix_term iv /\
+    p_log_det_regularization_matrix_term p iv = log_det_regularization_matrix_term iv.
+  Proof.
+    intros HH HL.
+    assert (E : p_regularization_matrix p iv = regularization_matrix iv).
+    { unfold p_regularization_matrix. destruct HH as [-> | ->]; reflexivity. }
+    unfold p_log_det_regularization_matrix_term, p_log_det_curvature_reg_matrix_term, p_regularization_term,
+      p_curvature_reg_matrix_reduced, p_regularization_matrix_reduced, p_curvature_reg_matrix.
+    rewrite E. repeat split; try reflexivity.
+    unfold log_det_regularization_matrix_term. destruct (negb (has_reg (objs iv))); [reflexivity|].
+    destruct HL as [-> | ->]; reflexivity.
+  Qed.
+
+  Lemma add_matrices_ok n (F H : list (list (T O))) : squareb n F = true -> squareb n H = true ->
+    squareb n (map2 (map2 (add O)) F H) = true /\
+    forall i j, i < n -> j < n -> mat_at (map2 (map2 (add O)) F H) i j = add O (mat_at F i j) (mat_at H i j).
+  Proof.
+    intros HF HH. destruct (squareb_spec _ _ HF) as [FL FR]. destruct (squareb_spec _ _ HH) as [HL HR].
+    assert (RowI : forall i, i < n -> nth i (map2 (map2 (add O)) F H) [] = map2 (add O) (nth i F []) (nth i H [])).
+    { intros i Hi. apply nth_map2; lia. }
+    split.
+    - apply squareb_intro; [rewrite map2_length; lia|]. intros i Hi. rewrite RowI by exact Hi.
+      rewrite map2_length; rewrite ?FR, ?HR; auto.
+    - intros i j Hi Hj. unfold mat_at. rewrite RowI by exact Hi.
+      rewrite (nth_map2 _ zero zero zero); rewrite ?FR, ?HR; auto.
+  Qed.
+  Lemma p_regularization_matrix_ok p iv : inv_okb iv = true -> pre_okb p iv = true ->
+    squareb (n_params (objs iv)) (p_regularization_matrix p iv) = true /\
+    forall i j, i < n_params (objs iv) -> j < n_params (objs iv) -> mat_at (p_regularization_matrix p iv) i j = s_H_eff p iv i j.
+  Proof.
+    intros HV HP. unfold p_regularization_matrix, s_H_eff, pre_okb in *. destruct (pre_H p) as [H|].
+    - split; [exact HP | reflexivity].
+    - apply regularization_matrix_ok. exact HV.
+  Qed.
+  (* with preloads, the reduced matrices are the restrictions of the matrices IN FORCE to the regularized parameters, and the
+     preloaded log-determinant (if any) stands for ln det of the restricted H only *)
+  Theorem preloaded_terms_are_restricted p iv : inv_okb iv = true -> pre_okb p iv = true ->
+    p_regularization_matrix_reduced p iv = tabulate (s_H_eff p iv) (reg_indices (objs iv)) /\
+    p_curvature_reg_matrix_reduced p iv = tabulate (s_FH_eff p iv) (reg_indices (objs iv)) /\
+    p_log_det_curvature_reg_matrix_term p iv =
+      (if has_reg (objs iv) then lnT O (det (tabulate (s_FH_eff p iv) (reg_indices (objs iv)))) else zero) /\
+    p_log_det_regularization_matrix_term p iv =
+      (if has_reg (objs iv)
+       then match pre_ldr p with Some v => v | None => lnT O (det (tabulate (s_H_eff p iv) (reg_indices (objs iv)))) end
+       else zero).
+  Proof.
+    intros HV HP. destruct (p_regularization_matrix_ok p iv HV HP) as (HS & HE).
+    destruct (inv_okb_parts iv HV) as (_ & HF & _).
+    assert (E1 : p_regularization_matrix_reduced p iv = tabulate (s_H_eff p iv) (reg_indices (objs iv))).
+    { unfold p_regularization_matrix_reduced. rewrite reduce_matrix_is_principal by exact HS. unfold principal_sub, tabulate.
+      apply map_ext_in. intros i Hi. apply map_ext_in. intros j Hj. apply HE; apply reg_indices_lt; assumption. }
+    assert (E2 : p_curvature_reg_matrix_reduced p iv = tabulate (s_FH_eff p iv) (reg_indices (objs iv))).
+    { unfold p_curvature_reg_matrix_reduced, p_curvature_reg_matrix. destruct (has_reg (objs iv)) eqn:G; cbn [negb].
+      - destruct (add_matrices_ok _ _ _ HF HS) as (HSq & HA). rewrite reduce_matrix_is_principal by exact HSq.
+        unfold principal_sub, tabulate, s_FH_eff. apply map_ext_in. intros i Hi. apply map_ext_in. intros j Hj.
+        rewrite HA, HE by (apply reg_indices_lt; assumption). reflexivity.
+      - rewrite reduce_matrix_is_principal by exact HF. rewrite (reg_indices_none _ G). reflexivity. }
+    split; [exact E1|]. split; [exact E2|].
+    unfold p_log_det_curvature_reg_matrix_term, p_log_det_regularization_matrix_term, logdet. rewrite E1, E2.
+    destruct (has_reg (objs iv)); split; reflexivity.
+  Qed.
+End PreAny.
+
+Local Open Scope R_scope.
+Theorem p_regularization_term_is_spec (lnf : R -> R) (p : pre (T (RL lnf))) (iv : inv (T (RL lnf))) :
+  inv_okb iv = true -> pre_okb p iv = true ->
+  p_regularization_term p iv =
+  sumR (map (fun i => sumR (map (fun j => at_ (recon iv) i * s_H_eff p iv i j * at_ (recon iv) j) (reg_indices (objs iv))))
+            (reg_indices (objs iv))).
+Proof.
+  intros HV HP. unfold p_regularization_term.
+  destruct (has_reg (objs iv)) eqn:G; cbn [negb].
+  2:{ rewrite (reg_indices_none _ G). reflexivity. }
+  destruct (preloaded_terms_are_restricted p iv HV HP) as (E1 & _). rewrite E1, reconstruction_reduced_is_restriction by exact HV.
+  unfold dotT, matvec, tabulate, Rset. rewrite map_map, map2_map_map. tR. rewrite !(sumT_RL lnf).
+  apply sumR_map_ext. intros i _. unfold dotT. rewrite map2_map_map. tR. rewrite !(sumT_RL lnf). rops.
+  rewrite <- sumR_map_scal. apply sumR_map_ext. intros j _. ring.
+Qed.
+(* a preloaded H that differs from the assembled one, and a preloaded log-determinant *)
+Definition ex_pre (O : NumOps) : pre (T O) :=
+  {| pre_H := Some (map (map (ofZ O)) [[3; 0; 0; 1]; [0; 3; 0; 0]; [0; 0; 3; 0]; [1; 0; 0; 3]]%Z); pre_ldr := Some (ofZ O 7) |}.
+Lemma ex_pre_hyps : inv_okb (ex_inv (RL ln)) = true /\ pre_okb (ex_pre (RL ln)) (ex_inv (RL ln)) = true /\
+  p_regularization_matrix (ex_pre (RL ln)) (ex_inv (RL ln)) <> regularization_matrix (ex_inv (RL ln)).
+Proof.
+  split; [lazy; reflexivity|]. split; [lazy; reflexivity|].
+  intros E. apply (f_equal (fun M => nth 0 (nth 0 M []) 0)) in E. cbn in E. apply eq_IZR in E. discriminate E.
+Qed.
